@@ -47,7 +47,9 @@ RULE = (
     "Run = part list (content with CR/LF runs, '--', delimiter prefixes and look-alikes, sizes around 8192 and around "
     "the delimiter length; base64 / quoted-printable / gzip / deflate / binary / identity, coding names also in upper "
     "and mixed case; names and filenames with non-ASCII, "
-    "quotes, backslashes, semicolons; quote_fields on/off; nested writers; payloads with and without size) x "
+    "quotes, backslashes, semicolons, and in 14 % of the unmutated runs names / filenames composed over non-ASCII "
+    "letters x every ASCII punctuation character that is no RFC 5987 attr-char x plain characters; "
+    "quote_fields on/off; nested writers; payloads with and without size) x "
     "segmentation (whole, fixed n, random, byte-wise windows around every delimiter) x read programme per part "
     "(read, read(decode), read_chunk with sampled legal sizes, readline, text, release, next() before the part is "
     "finished) x mode (round trip, a sample through a reader with a finite client_max_size / mutated body for "
@@ -127,7 +129,69 @@ def _count_leaves(parts):
     return sum(_count_leaves(p["sub"]["parts"]) + 1 if p["k"] == "nested" else 1 for p in parts)
 
 
+# Composed field names / filenames: the fixed NAMES / FILENAMES lists hold one special character
+# each; a Content-Disposition parameter is written in one of three forms (quoted-string, RFC 5987
+# name*=charset''pct-encoded, percent-encoded filename) chosen by the WHOLE value, so what one
+# character does depends on the others.  A sample of the scenarios gives one or two parts a name
+# composed over non-ASCII letters x every ASCII punctuation character that is not an attr-char
+# (RFC 5987) / not a token character x a few plain characters, under the part's quote_fields mode.
+NAME_LETTERS = ["\u00e4", "\u00e9", "\u00df", "\u0416", "\u6587", "\u4ef6", "\U0001f600"]
+NAME_PUNCT = list("/\"\\;,=?*%'()<>@:[]{} ")
+NAME_PLAIN = list("abXY09._-")
+
+
+def gen_name(rng):
+    n = rng.choice([2, 3, 3, 4, 5, 6])
+    chars = [rng.choice(NAME_PUNCT)]
+    if rng.random() < 0.8:
+        chars.append(rng.choice(NAME_LETTERS))
+    while len(chars) < n:
+        chars.append(rng.choice(rng.choice([NAME_LETTERS, NAME_PUNCT, NAME_PUNCT, NAME_PLAIN])))
+    rng.shuffle(chars)
+    return "".join(chars)
+
+
+def _leaf_specs(parts, form):
+    out = []
+    for p in parts:
+        if p["k"] == "nested":
+            out.extend(_leaf_specs(p["sub"]["parts"], p["sub"]["subtype"] == "form-data"))
+        else:
+            out.append((p, form))
+    return out
+
+
+def compose_names(rng, scn):
+    """Drawn after everything else: replaces the name and/or filename of one or two leaf parts."""
+    leaves = []
+    for key in ("w", "rw"):
+        if key in scn:
+            leaves.extend(_leaf_specs(scn[key]["parts"], scn[key]["subtype"] == "form-data"))
+    if not leaves:
+        return
+    for _ in range(rng.choice([1, 1, 2])):
+        p, form = rng.choice(leaves)
+        if p["disp"] is None:
+            p["disp"] = ["form-data" if form else rng.choice(["attachment", "inline", "form-data"]), {}]
+        params = p["disp"][1]
+        r = rng.random()
+        if r < 0.6 or "name" not in params and form:
+            params["name"] = gen_name(rng)
+        if r >= 0.4:
+            params["filename"] = gen_name(rng)
+        p["cn"] = 1
+    scn["cn"] = 1
+
+
 def gen(rng, tier, index):
+    scn = _gen(rng, tier, index)
+    # composed names (see compose_names): where names are judged, i.e. unmutated bodies
+    if rng.random() < 0.14 and (scn["world"] == "CS" or scn.get("mode") == "roundtrip"):
+        compose_names(rng, scn)
+    return scn
+
+
+def _gen(rng, tier, index):
     r = rng.random()
     if r < 0.06:
         return gen_cs(rng)
@@ -301,6 +365,17 @@ def _simpler_parts(parts):
         for key, val in (("xh", []), ("disp", None), ("cte", ""), ("ce", ""), ("ct", None)):
             if p.get(key) != val and not (key == "disp" and p.get("formfield")):
                 yield parts[:i] + [dict(p, **{key: val})] + parts[i + 1:]
+        if p.get("cn") and p.get("disp"):  # composed names: drop one character / back to a plain name
+            dt, params = p["disp"]
+            for attr in ("name", "filename"):
+                v = params.get(attr)
+                if v is None:
+                    continue
+                if len(v) > 1:
+                    for j in range(len(v)):
+                        yield parts[:i] + [dict(p, disp=[dt, dict(params, **{attr: v[:j] + v[j + 1:]})])] + parts[i + 1:]
+                if v != "x":
+                    yield parts[:i] + [dict(p, disp=[dt, dict(params, **{attr: "x"})])] + parts[i + 1:]
         if p.get("ces") or p.get("ctes"):  # back to the canonical lower-case coding names
             yield parts[:i] + [{k: v for k, v in p.items() if k not in ("ces", "ctes")}] + parts[i + 1:]
         if p["k"] in ("bio", "aiter"):
@@ -728,9 +803,9 @@ class Consumer:
             top = "form" if node.form else "mixed"
             qf = int(bool(node.spec["qf"]))
             # what is literally inside the header's quoted strings decides how it parses
-            literal = (node.name or "") + ("" if qf else (node.filename or ""))
-            if literal.count(";") >= 2:
-                cls = lambda s: "semicolons_in_disposition"  # noqa: E731
+            known = disp_split_class(node.name, node.filename, qf)
+            if known:
+                cls = lambda s: known  # noqa: E731
             else:
                 cls = R.name_class
             if node.name is not None and not R.same_name(part.name, node.name):
@@ -920,6 +995,24 @@ class Consumer:
             elif kind == "release":
                 await part.release()
             # skip: nothing
+
+
+def disp_split_class(name, filename, qf):
+    """Key class for the two input classes on which the reader's split-on-';'-first parsing of
+    Content-Disposition is known to lose the header (C19-F1, C19-F7), else None.  Only values that are
+    written as LITERAL quoted strings count: with quote_fields the filename is percent-encoded and a
+    name that is no 7-bit quoted-string goes out as name*=charset''pct-encoded (no literal ';' or '"')."""
+    if qf:
+        lits = [name] if name is not None and all(0x20 <= ord(c) < 0x7f or c == "\t" for c in name) else []
+        dq = '";'  # quoted_string() escapes blanks as well: '\" ;' does not end the piece with a quote
+    else:
+        lits = [v for v in (name, filename) if v is not None]
+        dq = '"[ \t]*;'
+    if sum(v.count(";") for v in lits) >= 2:
+        return "semicolons_in_disposition"
+    if any(re.search(dq, v) for v in lits):
+        return "dquote_semicolon_in_disposition"
+    return None
 
 
 def _diff(what, got, want):
@@ -1725,9 +1818,9 @@ def run_cs(scn, ch, log=False):
                 violate("limit_enforced", "cs_post_limit_not_enforced",
                         f"client_max_size={cms} but a {req_size}-byte form was accepted (status {cl['status']})")
             elif sexc is not None and "missing name" in str(sexc) and any(
-                    ((n.name or "") + ("" if n.spec["qf"] else (n.filename or ""))).count(";") >= 2 for n in req_nodes):
-                n = next(n for n in req_nodes if ((n.name or "") + ("" if n.spec["qf"] else (n.filename or ""))).count(";") >= 2)
-                violate("names_equal", f"name:semicolons_in_disposition:qf={int(bool(n.spec['qf']))}",
+                    disp_split_class(n.name, n.filename, n.spec["qf"]) for n in req_nodes):
+                n = next(n for n in req_nodes if disp_split_class(n.name, n.filename, n.spec["qf"]))
+                violate("names_equal", f"name:{disp_split_class(n.name, n.filename, n.spec['qf'])}:qf={int(bool(n.spec['qf']))}",
                         f"post(): field {n.name!r} (filename {n.filename!r}) arrived without a name: {sexc!r}")
             elif sexc is not None:
                 key = "next_after_partial_readline" if partial_rl else f"server_handler_raises:{type(sexc).__name__}@{_frame_of(sexc)}"
